@@ -906,10 +906,10 @@ func c15OracleSecond(c *c15Case, first int) []string {
 		switch {
 		case i > exp && sc.Client[i] != 0:
 			bad = append(bad, fmt.Sprintf("%s: upstream %d (%s) contacted although upstream %d answers/fails the query", pre, i, modes2[i].Name, exp))
-		case i < exp && sc.Client[i] != 1:
-			bad = append(bad, fmt.Sprintf("%s: upstream %d (%s) contacted %d time(s), the property requires 1 (an earlier failure must not be remembered)", pre, i, modes2[i].Name, sc.Client[i]))
-		case i == exp && i != a1 && sc.Client[i] != 1:
-			bad = append(bad, fmt.Sprintf("%s: upstream %d (%s) contacted %d time(s), the property requires 1", pre, i, modes2[i].Name, sc.Client[i]))
+		case i <= exp && sc.Client[i] > 1:
+			// (0 is not judged: the property does not forbid remembering a failure of an upstream that is still failing;
+			// what it requires — a recovered upstream answers again — is judged on the result below)
+			bad = append(bad, fmt.Sprintf("%s: upstream %d (%s) contacted %d times for one request", pre, i, modes2[i].Name, sc.Client[i]))
 		}
 	}
 	switch {
